@@ -170,6 +170,10 @@ pub enum QOp {
     IterInterleaved(u32),
     IterMutAppend(String),
     IterMutBackFirst(String),
+    /// after `front` calls of next() and `back` calls of next_back(): every consuming
+    /// iterator method (internal and external iteration, both directions) on iter() and on
+    /// iter_mut(), compared with the same methods on a plain slice of the expected pairs
+    IterAdapters(u8, u8),
     IntoIterRef,
     IntoIterMutAppend(String),
     LenIsEmpty,
@@ -223,6 +227,7 @@ impl QOp {
             QOp::IterInterleaved(..) => "iter.next/next_back",
             QOp::IterMutAppend(..) => "iter_mut",
             QOp::IterMutBackFirst(..) => "iter_mut.next_back",
+            QOp::IterAdapters(..) => "iterator-methods",
             QOp::IntoIterRef => "into_iter(&)",
             QOp::IntoIterMutAppend(..) => "into_iter(&mut)",
             QOp::LenIsEmpty => "len/is_empty",
@@ -271,6 +276,112 @@ fn structure_checksum(text: &str) -> Result<Vec<(String, String)>, ()> {
 const PANIC: &str = "PANIC";
 
 /// The model: returns the rendered result the real call must produce.
+/// Every consuming method of a double-ended, exact-size iterator, rendered as text.
+/// `$mk` is an expression producing a fresh, equally advanced iterator each time it is
+/// evaluated; `$conv` turns an item into owned `(key, value)` strings; `$len` reads the value
+/// length through a reference to an item.
+macro_rules! iterator_methods {
+    ($mk:expr, $conv:expr, $len:expr) => {{
+        let c = $conv;
+        let vl = $len;
+        let mut o: Vec<String> = Vec::new();
+        let n = $mk.len();
+        o.push(format!("len={n} size_hint={:?} count={}", $mk.size_hint(), $mk.count()));
+        let mut v = Vec::new();
+        for x in $mk {
+            v.push(c(x));
+        }
+        o.push(format!("for={v:?}"));
+        o.push(format!("collect={:?}", $mk.map(c).collect::<Vec<_>>()));
+        let mut v = Vec::new();
+        $mk.for_each(|x| v.push(c(x)));
+        o.push(format!("for_each={v:?}"));
+        o.push(format!("fold={:?}", $mk.fold(Vec::new(), |mut a, x| {
+            a.push(c(x));
+            a
+        })));
+        o.push(format!("rfold={:?}", $mk.rfold(Vec::new(), |mut a, x| {
+            a.push(c(x));
+            a
+        })));
+        let mut v = Vec::new();
+        for x in $mk.rev() {
+            v.push(c(x));
+        }
+        o.push(format!("rev.for={v:?}"));
+        let mut v = Vec::new();
+        $mk.rev().for_each(|x| v.push(c(x)));
+        o.push(format!("rev.for_each={v:?}"));
+        o.push(format!("rev.fold={:?}", $mk.rev().fold(Vec::new(), |mut a, x| {
+            a.push(c(x));
+            a
+        })));
+        o.push(format!("rev.rfold={:?}", $mk.rev().rfold(Vec::new(), |mut a, x| {
+            a.push(c(x));
+            a
+        })));
+        o.push(format!("rev.collect={:?} rev.rev.collect={:?}", $mk.rev().map(c).collect::<Vec<_>>(), $mk.rev().rev().map(c).collect::<Vec<_>>()));
+        o.push(format!("last={:?} rev.last={:?}", $mk.last().map(c), $mk.rev().last().map(c)));
+        o.push(format!("try_fold={:?}", $mk.try_fold(Vec::new(), |mut a, x| {
+            a.push(c(x));
+            if a.len() == 2 { Err(a) } else { Ok(a) }
+        })));
+        o.push(format!("try_rfold={:?}", $mk.try_rfold(Vec::new(), |mut a, x| {
+            a.push(c(x));
+            if a.len() == 2 { Err(a) } else { Ok(a) }
+        })));
+        o.push(format!("find={:?} rfind={:?}", $mk.find(|x| vl(x) % 2 == 0).map(c), $mk.rfind(|x| vl(x) % 2 == 0).map(c)));
+        o.push(format!("position={:?} rposition={:?}", $mk.position(|x| vl(&x) % 2 == 1), $mk.rposition(|x| vl(&x) % 2 == 1)));
+        o.push(format!("any={} all={}", $mk.any(|x| vl(&x) == 0), $mk.all(|x| vl(&x) > 0)));
+        o.push(format!("max_by_key={:?} min_by_key={:?}", $mk.max_by_key(|x| vl(x)).map(c), $mk.min_by_key(|x| vl(x)).map(c)));
+        o.push(format!("filter.count={} rev.filter.collect={:?}", $mk.filter(|x| vl(x) > 0).count(), $mk.rev().filter(|x| vl(x) % 2 == 0).map(c).collect::<Vec<_>>()));
+        o.push(format!("enumerate.rev={:?}", $mk.enumerate().rev().map(|(i, x)| (i, c(x))).collect::<Vec<_>>()));
+        for k in 0..=n + 1 {
+            o.push(format!(
+                "k={k}: nth={:?} nth_back={:?} skip={:?} take={:?} rev.skip={:?} rev.take={:?} step_by={:?} skip.rev={:?} take.rev={:?}",
+                $mk.nth(k).map(c),
+                $mk.nth_back(k).map(c),
+                $mk.skip(k).map(c).collect::<Vec<_>>(),
+                $mk.take(k).map(c).collect::<Vec<_>>(),
+                $mk.rev().skip(k).map(c).collect::<Vec<_>>(),
+                $mk.rev().take(k).map(c).collect::<Vec<_>>(),
+                $mk.step_by(k + 1).map(c).collect::<Vec<_>>(),
+                $mk.skip(k).rev().map(c).collect::<Vec<_>>(),
+                $mk.take(k).rev().map(c).collect::<Vec<_>>(),
+            ));
+            // what is left after nth / nth_back
+            let mut it = $mk;
+            let _ = it.nth(k);
+            let l = it.len();
+            o.push(format!("after nth({k}): len={l} rest={:?}", it.map(c).collect::<Vec<_>>()));
+            let mut it = $mk;
+            let _ = it.nth_back(k);
+            o.push(format!("after nth_back({k}): rest={:?}", it.map(c).collect::<Vec<_>>()));
+        }
+        // by_ref: partial consumption, then the rest from the other end
+        let mut it = $mk;
+        let head: Vec<_> = it.by_ref().take(1).map(c).collect();
+        let tail: Vec<_> = it.rev().map(c).collect();
+        o.push(format!("by_ref.take(1)={head:?} then rev={tail:?}"));
+        o.join("\n")
+    }};
+}
+
+/// Methods that need two live iterators over the same collection (shared iteration only).
+macro_rules! iterator_pair_methods {
+    ($mk:expr, $conv:expr) => {{
+        let c = $conv;
+        format!(
+            "zip.rev={:?} chain.count={} chain.rev={:?} eq={} lt={}",
+            $mk.zip($mk.rev()).map(|(a, b)| (c(a).0, c(b).0)).collect::<Vec<_>>(),
+            $mk.chain($mk).count(),
+            $mk.chain($mk.rev()).rev().map(c).collect::<Vec<_>>(),
+            $mk.map(c).eq($mk.map(c)),
+            $mk.map(c).lt($mk.rev().map(c)),
+        )
+    }};
+}
+
 pub fn apply_model(m: &mut M, op: &QOp) -> String {
     let present = |m: &M, k: &str| if key_ok(k) { m.get(&ascii_lower(k)).cloned() } else { None };
     match op {
@@ -426,6 +537,15 @@ pub fn apply_model(m: &mut M, op: &QOp) -> String {
                 step += 1;
             }
             out
+        },
+        QOp::IterAdapters(front, back) => {
+            let items: Vec<(String, String)> = m.iter().map(|(k, v)| (k.clone(), v.clone())).collect();
+            let lo = (*front as usize).min(items.len());
+            let hi = items.len() - (*back as usize).min(items.len() - lo);
+            let slice = &items[lo..hi];
+            let one = iterator_methods!(slice.iter(), |x: &(String, String)| x.clone(), |x: &&(String, String)| x.1.len());
+            let two = iterator_pair_methods!(slice.iter(), |x: &(String, String)| x.clone());
+            format!("iter:\n{one}\n{two}\niter_mut:\n{one}")
         },
         QOp::IterMutAppend(app) | QOp::IntoIterMutAppend(app) => {
             for v in m.values_mut() {
@@ -689,6 +809,51 @@ pub fn apply_real(q: &mut Qualifiers, op: &QOp) -> String {
             }
             format!("{v:?}")
         },
+        QOp::IterAdapters(front, back) => {
+            let (front, back) = (*front, *back);
+            let a = iterator_methods!(
+                {
+                    let mut it = q.iter();
+                    for _ in 0..front {
+                        it.next();
+                    }
+                    for _ in 0..back {
+                        it.next_back();
+                    }
+                    it
+                },
+                |x: (&purl::qualifiers::QualifierKey, &str)| (x.0.as_str().to_string(), x.1.to_string()),
+                |x: &(&purl::qualifiers::QualifierKey, &str)| x.1.len()
+            );
+            let b = iterator_methods!(
+                {
+                    let mut it = q.iter_mut();
+                    for _ in 0..front {
+                        it.next();
+                    }
+                    for _ in 0..back {
+                        it.next_back();
+                    }
+                    it
+                },
+                |x: (&purl::qualifiers::QualifierKey, &mut SmallString)| (x.0.as_str().to_string(), x.1.to_string()),
+                |x: &(&purl::qualifiers::QualifierKey, &mut SmallString)| x.1.len()
+            );
+            let two = iterator_pair_methods!(
+                {
+                    let mut it = q.iter();
+                    for _ in 0..front {
+                        it.next();
+                    }
+                    for _ in 0..back {
+                        it.next_back();
+                    }
+                    it
+                },
+                |x: (&purl::qualifiers::QualifierKey, &str)| (x.0.as_str().to_string(), x.1.to_string())
+            );
+            format!("iter:\n{a}\n{two}\niter_mut:\n{b}")
+        },
         QOp::IterBack => format!("{:?}", q.iter().rev().map(|(k, v)| (k.as_str().to_string(), v.to_string())).collect::<Vec<_>>()),
         QOp::IterInterleaved(bits) => {
             let mut it = q.iter();
@@ -949,6 +1114,9 @@ fn universe_ops() -> Vec<QOp> {
     }
     v.push(QOp::IterMutAppend(s("!")));
     v.push(QOp::IterMutBackFirst(s("!")));
+    for (f, b) in [(0, 0), (1, 0), (0, 1), (1, 1), (2, 2)] {
+        v.push(QOp::IterAdapters(f, b));
+    }
     v.push(QOp::IntoIterRef);
     v.push(QOp::IntoIterMutAppend(s("?")));
     v.push(QOp::LenIsEmpty);
@@ -1001,8 +1169,16 @@ fn rand_key(r: &mut Rng, pool: &[String]) -> String {
                 k
             }
         },
-        6 => r.pick(&TYPED_KEYS).to_string(),
+        6 => {
+            let k = r.pick(&TYPED_KEYS).to_string();
+            // a well-known key, or a valid key one small edit away from it (`vcs-url`)
+            if r.coin() { k } else { crate::spell::near_key(r, &k) }
+        },
         7 => r.pick(&["checksum", "Checksum"]).to_string(),
+        8 if r.coin() => {
+            let k = r.pick(pool).clone();
+            crate::spell::near_key(r, &k)
+        },
         8 => gen::mixed_string(r, 0, 6, 60),
         _ => crate::spell::gen_key(r),
     }
@@ -1080,6 +1256,7 @@ fn rand_op(r: &mut Rng, pool: &[String]) -> QOp {
                 QOp::ReserveExact(r.below(20) as u8)
             }
         },
+        34 if r.coin() => QOp::IterAdapters(r.below(3) as u8, r.below(3) as u8),
         34 => QOp::IterFwd,
         35 => QOp::IterBack,
         36 => QOp::IterInterleaved(r.next() as u32),
@@ -1204,15 +1381,15 @@ pub fn run(ctx: &mut Ctx) {
     let mut r = ctx.rng("c11.random");
     for _ in 0..ctx.share(30_000, 1_500_000) {
         let npool = r.range(2, 6);
-        let pool: Vec<String> = (0..npool)
-            .map(|_| {
-                let mut k = crate::spell::gen_key(&mut r).to_ascii_lowercase();
-                if r.chance(1, 5) {
-                    k.push_str("-a.very_long.key-suffix_0123456789");
-                }
-                k
-            })
-            .collect();
+        let mut pool: Vec<String> = Vec::new();
+        for _ in 0..npool {
+            // fresh keys, well-known keys, and near misses of keys already in the pool
+            let mut k = crate::spell::gen_key_among(&mut r, &pool).to_ascii_lowercase();
+            if r.chance(1, 5) {
+                k.push_str("-a.very_long.key-suffix_0123456789");
+            }
+            pool.push(k);
+        }
         let n = r.range(10, 200);
         let ops: Vec<QOp> = (0..n).map(|_| rand_op(&mut r, &pool)).collect();
         ctx.st.count("random-histories");
